@@ -109,7 +109,7 @@ func applyDiff(n *sbom.Node, d *sbom.NodeDiff, everyEqual bool) *sbom.Node {
 func genC14Pair(t *rapid.T) (*sbom.Node, *sbom.Node, string) {
 	text := textNoMeta()
 	n := genC13Node(t, "n", text)
-	mode := rapid.SampledFrom([]string{"same", "1", "2", "5", "independent", "perm", "empty_vs_absent", "duplicates", "duplicates_first", "dup_then_replace", "empty_map_value"}).Draw(t, "mode")
+	mode := rapid.SampledFrom([]string{"same", "1", "2", "5", "independent", "perm", "empty_vs_absent", "duplicates", "duplicates_first", "dup_then_replace", "replace_by_duplicate", "empty_map_value"}).Draw(t, "mode")
 	var n2 *sbom.Node
 	mutate := func(k int) {
 		n2 = proto.Clone(n).(*sbom.Node)
@@ -169,6 +169,26 @@ func genC14Pair(t *rapid.T) (*sbom.Node, *sbom.Node, string) {
 		case 3:
 			n.Identifiers = map[int32]string{1: "", 2: "x"}
 			n2.Identifiers = map[int32]string{2: "x"}
+		}
+	case "replace_by_duplicate":
+		// the SECOND node repeats an element in the place of another one: same length, nothing new, one element gone
+		n.Licenses = append(n.Licenses, "LIC-A", "LIC-B")
+		n.Suppliers = append(n.Suppliers, &sbom.Person{Name: "acme", IsOrg: true}, &sbom.Person{Name: "bob"})
+		n.Originators = append(n.Originators, &sbom.Person{Name: "o1"}, &sbom.Person{Name: "o2", Email: "o@x"})
+		n.ExternalReferences = append(n.ExternalReferences, &sbom.ExternalReference{Url: "http://e.x/a", Type: sbom.ExternalReference_VCS}, &sbom.ExternalReference{Url: "http://e.x/b", Type: sbom.ExternalReference_WEBSITE})
+		n.FileTypes = append(n.FileTypes, "TEXT", "BINARY")
+		n2 = proto.Clone(n).(*sbom.Node)
+		switch rapid.IntRange(0, 4).Draw(t, "which") {
+		case 0:
+			n2.Licenses[len(n2.Licenses)-1] = n2.Licenses[len(n2.Licenses)-2]
+		case 1:
+			n2.Suppliers[len(n2.Suppliers)-1] = proto.Clone(n2.Suppliers[len(n2.Suppliers)-2]).(*sbom.Person)
+		case 2:
+			n2.Originators[len(n2.Originators)-1] = proto.Clone(n2.Originators[len(n2.Originators)-2]).(*sbom.Person)
+		case 3:
+			n2.ExternalReferences[len(n2.ExternalReferences)-1] = proto.Clone(n2.ExternalReferences[len(n2.ExternalReferences)-2]).(*sbom.ExternalReference)
+		case 4:
+			n2.FileTypes[len(n2.FileTypes)-1] = n2.FileTypes[len(n2.FileTypes)-2]
 		}
 	case "duplicates_first", "dup_then_replace":
 		// the FIRST node carries repeated elements; the second drops the repetition or replaces one copy by a
